@@ -183,9 +183,9 @@ func c09Scenarios(tier string) []engine.Scenario {
 func init() {
 	engine.Register(&engine.Property{
 		ID: "C09", Level: "model_checking",
-		Rule: "E1 over login (password, password+TOTP) / request / app-key / logout sequences with clock advances {1s, EA-1s, EA+1s, 3EA}; reference idle clock advanced on the same history; every request from a session with a user is compared with it (what the downstream handler can read, what the response leaves in the jar); classes = live / expired / boundary requests by kind",
-		Units: func(tier string) []engine.Unit { return e1Units(c09Scenarios(tier)) },
-		Need:  []string{"live:open", "expired:open", "boundary:open", "live:put", "expired:put"},
+		Rule:        "E1 over login (password, password+TOTP) / request / app-key / logout sequences with clock advances {1s, EA-1s, EA+1s, 3EA}; reference idle clock advanced on the same history; every request from a session with a user is compared with it (what the downstream handler can read, what the response leaves in the jar); classes = live / expired / boundary requests by kind",
+		Units:       func(tier string) []engine.Unit { return e1Units(c09Scenarios(tier)) },
+		Need:        []string{"live:open", "expired:open", "boundary:open", "live:put", "expired:put"},
 		Assumptions: []string{"whole-second clock (the stamp is RFC 3339 with one-second resolution)", "a gap of exactly ExpireAfter is not asserted either way", "only logins that fire EventAuth are in the alphabet (DESIGN.md 7.13)"},
 	})
 }
